@@ -10,7 +10,6 @@ Import ListNotations.
 Local Open Scope list_scope.
 
 Module AP := OV.Autocast.AutocastProofs.
-Set Default Timeout 40.
 
 (* ------------------------------------------------------------------ first binding wins (builder) *)
 Section FirstWins.
@@ -509,14 +508,31 @@ Proof.
   destruct I1 as [I1|[I1|[I1|[I1|[]]]]]; destruct I2 as [I2|[I2|[I2|[I2|[]]]]]; subst; cbn; auto.
 Qed.
 
-(* a trace with a derived call in a Loop body and one at the top level: all hypotheses of
-   build_computes_typed_trace_partial hold and the reading is defined *)
+(* x (float, known), u (element type unknown to the builder) = inputs;  a = op.Add(x, 2);  b = op.Mul(u, 2):
+   every call is derived, the hypotheses of build_computes_typed_trace_partial hold, the reading is defined *)
+Definition ex_add_call : tcall :=
+  TC (s_of "Add") [TVal 0 A.FLOAT true; TLit (tl two "const_2_f32" "const_2_f32" "():00000040")].
+Definition ex_mul_call : tcall :=
+  TC (s_of "Mul") [TVal 1 A.FLOAT false; TLit (tl two "const_2_i64" "const_2_i64" "():0200000000000000")].
+Definition ex_add_ops : list operand := [OVal 0; OLit (Lit "const_2_f32" (LNFixed "const_2_f32") "float32:():00000040")].
+Definition ex_mul_ops : list operand :=
+  [OVal 1; OLitCast (Lit "const_2_i64" (LNFixed "const_2_i64") "int64:():0200000000000000") 1].
 Definition ex_lit_trace : list call :=
-  [COp [] "" "Max" ex_ops [] [] (ODefault 1)].
+  [COp [] "" "Add" ex_add_ops [] [] (ODefault 1); COp [] "" "Mul" ex_mul_ops [] [] (ODefault 1)].
+Definition zl (s : string) : Z := Z.of_nat (String.length s).
 
+Local Open Scope string_scope.
 Example ex_typed_trace_hyps :
-  every_calls derived ex_lit_trace /\ cf_hypsb bcfg_fixed ["x0"; "x1"; "x2"; "x3"; "x4"; "x5"] ex_lit_trace = true.
+  every_calls derived ex_lit_trace /\ cf_hypsb bcfg_fixed ["x"; "u"] ex_lit_trace = true /\
+  (forall d p, zl (lit_tag d p) = (fun d p => zl (lit_tag d p)) d p) /\
+  creplay Z zsem ztruth ztrip Z.of_nat zof_bool 100 zl 1 ex_lit_trace [5; 7]%Z [2; 3] = Some [24; 175]%Z.
 Proof.
-  split; [|vm_compute; reflexivity].
-  cbn [ex_lit_trace every_calls every_call]. split; [split; [apply ex_derived|exact I]|exact I].
+  split; [|split; [vm_compute; reflexivity|split; [reflexivity|vm_compute; reflexivity]]].
+  cbn [ex_lit_trace every_calls every_call]. split; [split; [|exact I]|split; [split; [|exact I]|exact I]].
+  - exists ex_add_call. eexists. split; [vm_compute; reflexivity|]. split; [vm_compute; reflexivity|]. split; [|vm_compute; reflexivity].
+    apply uniform_of_check. intros sl1 sl2 I1 I2. cbn in I1, I2.
+    destruct I1 as [I1|[I1|[]]]; destruct I2 as [I2|[I2|[]]]; subst; cbn; auto.
+  - exists ex_mul_call. eexists. split; [vm_compute; reflexivity|]. split; [vm_compute; reflexivity|]. split; [|vm_compute; reflexivity].
+    apply uniform_of_check. intros sl1 sl2 I1 I2. cbn in I1, I2.
+    destruct I1 as [I1|[I1|[]]]; destruct I2 as [I2|[I2|[]]]; subst; cbn; auto.
 Qed.
